@@ -8,6 +8,11 @@
 //! replaced by prefixes, zeros, or their last synced content), materialises
 //! each one and opens a *fresh* instance on it. Oracle: the fresh instance
 //! loads, and every object equals its complete old or its complete new state.
+//!
+//! Round 4: in the kinds `*.save-after-interrupted-save` a history continues FROM a
+//! crash state: the save before the monitored one dies at one of its derived
+//! states (mostly one that leaves its temporary file behind), a fresh instance
+//! loads that directory, works, and its next save is monitored and judged.
 
 mod interpose;
 
@@ -111,9 +116,12 @@ enum Kind {
     DiskCacheClear,
     DiskCachePutReopened,
     JournalSave,
+    // --- round 4: the save that follows an interrupted save (the directory still holds what the crash left)
+    IndexAfterInterruptedSave,
+    ResidencyAfterInterruptedSave,
 }
 
-const ALL_KINDS: [Kind; 19] = [
+const ALL_KINDS: [Kind; 21] = [
     Kind::IndexSaveAll,
     Kind::IndexFlushBucket,
     Kind::ResidencySave,
@@ -133,6 +141,8 @@ const ALL_KINDS: [Kind; 19] = [
     Kind::DiskCacheClear,
     Kind::DiskCachePutReopened,
     Kind::JournalSave,
+    Kind::IndexAfterInterruptedSave,
+    Kind::ResidencyAfterInterruptedSave,
 ];
 
 impl Kind {
@@ -157,6 +167,8 @@ impl Kind {
             Kind::DiskCacheClear => "diskcache.clear",
             Kind::DiskCachePutReopened => "diskcache.put(reopened)",
             Kind::JournalSave => "compaction-journal.save",
+            Kind::IndexAfterInterruptedSave => "index.save-after-interrupted-save",
+            Kind::ResidencyAfterInterruptedSave => "residency.save-after-interrupted-save",
         }
     }
     fn is_journal(self) -> bool {
@@ -164,8 +176,8 @@ impl Kind {
     }
     fn object(self) -> &'static str {
         match self {
-            Kind::IndexSaveAll | Kind::IndexFlushBucket | Kind::IndexFlushAll | Kind::IndexMutatorOnFullSection | Kind::ContainerWrite | Kind::ContainerRemove => "index-bucket",
-            Kind::ResidencySave | Kind::ResidencyContainerFlush => "residency-db",
+            Kind::IndexSaveAll | Kind::IndexFlushBucket | Kind::IndexFlushAll | Kind::IndexMutatorOnFullSection | Kind::ContainerWrite | Kind::ContainerRemove | Kind::IndexAfterInterruptedSave => "index-bucket",
+            Kind::ResidencySave | Kind::ResidencyContainerFlush | Kind::ResidencyAfterInterruptedSave => "residency-db",
             Kind::LruCheckpoint | Kind::LruShutdown | Kind::LruAfterReload | Kind::LruRunCycle => "lru-checkpoint",
             Kind::DiskCachePut | Kind::DiskCachePutSubdirs | Kind::DiskCacheRemove | Kind::DiskCacheClear | Kind::DiskCachePutReopened => "disk-cache-entry",
             Kind::JournalRecord | Kind::JournalSave => "compaction-journal",
@@ -1055,6 +1067,304 @@ fn scenario_journal_save(rng: &mut Rng, dir: &Path) -> Result<Recorded, String> 
     Ok(Recorded { kind: Kind::JournalSave, history: Value::Array(hist), old, new, points: mon.points, calls: mon.calls, sub: PathBuf::from("journal") })
 }
 
+// ------------------------------------------------------------------ round 4: the save after an interrupted save
+
+/// The process dies inside the routine that just ran under the monitor: one of the directory states that crash can
+/// leave (the same derivation the judged crash states come from) becomes the content of `store`. States that leave a
+/// temporary file of the routine behind are preferred. A temporary file is recognised by what the routine does with
+/// it, not by its name: it exists at some crash point but neither before the routine nor after it completed. Returns
+/// the temporary files left, each with the file it would have been renamed to (if the routine got that far).
+fn crash_into(rng: &mut Rng, store: &Path, mon: &interpose::Monitor, hist: &mut Vec<Value>) -> Result<Vec<(PathBuf, Option<PathBuf>)>, String> {
+    let (Some(first), Some(last)) = (mon.points.first(), mon.points.last()) else { return Ok(Vec::new()) };
+    if mon.points.len() < 2 {
+        hist.push(json!(["(the routine had nothing to write: the process dies with the directory as it was)"]));
+        return Ok(Vec::new());
+    }
+    let transient = |p: &PathBuf| !first.files.contains_key(p) && !last.files.contains_key(p);
+    let rename_target = |t: &PathBuf| -> Option<PathBuf> {
+        for w in mon.points.windows(2) {
+            if let Some(fs) = w[0].files.get(t) {
+                if !w[1].files.contains_key(t) {
+                    return w[1].files.iter().find(|(p, g)| *p != t && Arc::ptr_eq(&g.content, &fs.content)).map(|(p, _)| p.clone());
+                }
+            }
+        }
+        None
+    };
+    let states = derive_states(&mon.points, false);
+    let with_temp: Vec<&CrashState> = states.iter().filter(|s| s.files.keys().any(&transient)).collect();
+    let temp_len = |s: &CrashState| -> usize { s.files.iter().filter(|(p, _)| transient(p)).map(|(_, c)| c.len()).sum() };
+    let st: &CrashState = if !with_temp.is_empty() && rng.chance(4, 5) {
+        if rng.bool() {
+            // the longest leftover this save can produce (the next image of the object is then more likely the shorter one)
+            let longest = with_temp.iter().map(|s| temp_len(s)).max().unwrap_or(0);
+            let of_that_length: Vec<&CrashState> = with_temp.iter().copied().filter(|s| temp_len(s) == longest).collect();
+            *rng.pick(&of_that_length)
+        } else {
+            *rng.pick(&with_temp)
+        }
+    } else {
+        rng.pick(&states)
+    };
+    std::fs::remove_dir_all(store).map_err(|e| e.to_string())?;
+    std::fs::create_dir_all(store).map_err(|e| e.to_string())?;
+    for (rel, content) in &st.files {
+        let p = store.join(rel);
+        if let Some(parent) = p.parent() {
+            std::fs::create_dir_all(parent).map_err(|e| e.to_string())?;
+        }
+        std::fs::write(&p, &***content).map_err(|e| e.to_string())?;
+    }
+    let temps: Vec<(PathBuf, Option<PathBuf>)> = st.files.keys().filter(|p| transient(p)).map(|p| (p.clone(), rename_target(p))).collect();
+    hist.push(json!(["(the process dies inside this routine)", {
+        "crash_point": st.point_label,
+        "variant": st.variant,
+        "variant_detail": st.variant_detail,
+        "files_left": st.files.iter().map(|(k, v)| json!([k, v.len()])).collect::<Vec<_>>(),
+    }]));
+    Ok(temps)
+}
+
+/// Every object a fresh instance shows after the interrupted save must be its old or its new state of THAT save
+/// (that is what the kinds monitoring that save judge); it is the old state of the save monitored next.
+fn old_or_new(start: &Obs, old0: &Obs, new0: &Obs) -> Result<(), String> {
+    let empty = String::new();
+    let names: BTreeSet<&String> = old0.keys().chain(new0.keys()).chain(start.keys()).collect();
+    for name in names {
+        let (g, o, n) = (start.get(name).unwrap_or(&empty), old0.get(name).unwrap_or(&empty), new0.get(name).unwrap_or(&empty));
+        if g != o && g != n {
+            return Err(format!("after the interrupted save a fresh instance shows {name} as neither old nor new (judged by the kinds that monitor that save, not here)"));
+        }
+    }
+    Ok(())
+}
+
+#[derive(Clone, Copy, Debug)]
+enum IdxRoutine {
+    SaveAll,
+    FlushBucket(u8),
+    FlushAll,
+}
+
+impl IdxRoutine {
+    fn label(self) -> String {
+        match self {
+            IdxRoutine::SaveAll => "save_all".to_string(),
+            IdxRoutine::FlushBucket(b) => format!("flush_updates_for_bucket({b})"),
+            IdxRoutine::FlushAll => "flush_all_updates".to_string(),
+        }
+    }
+    fn run(self, m: &mut IndexManager) -> Result<(), String> {
+        match self {
+            IdxRoutine::SaveAll => m.save_all(),
+            IdxRoutine::FlushBucket(b) => m.flush_updates_for_bucket(b),
+            IdxRoutine::FlushAll => m.flush_all_updates(),
+        }
+        .map_err(|e| e.to_string())
+    }
+    /// The state the routine persists, given the instance after the call and the on-disk state before it:
+    /// `save_all` writes every bucket in memory, `flush_all_updates` every bucket with pending updates (one without
+    /// shows in memory what is on disk already), `flush_updates_for_bucket` one bucket (the others keep their
+    /// on-disk state).
+    fn new_state(self, m: &IndexManager, universe: &[[u8; 16]], old: &Obs) -> Obs {
+        let mut new = render_index(m, universe);
+        if let IdxRoutine::FlushBucket(b) = self {
+            let name = format!("bucket-{b:02x}");
+            for (k, v) in old {
+                if *k != name {
+                    new.insert(k.clone(), v.clone());
+                }
+            }
+            new.retain(|k, _| *k == name || old.contains_key(k));
+        }
+        new
+    }
+}
+
+/// Index saves in a directory that still holds what an EARLIER, interrupted save left: a save (`save_all`,
+/// `flush_updates_for_bucket`, `flush_all_updates`) runs under the monitor and the process dies at one of its crash
+/// states (mostly one with the bucket's temporary file left behind: complete, cut, zeroed); a fresh instance loads the
+/// directory, mutates (adds, removes, relocations, status changes — so the next image of a bucket can be longer or
+/// shorter than the leftover), and its NEXT save is monitored and judged as usual, crash states and completed save.
+fn scenario_index_after_interrupted_save(rng: &mut Rng, dir: &Path) -> Result<Recorded, String> {
+    let store = dir.join("idx");
+    std::fs::create_dir_all(&store).map_err(|e| e.to_string())?;
+    let buckets: Vec<u8> = if rng.bool() { vec![rng.below(16) as u8] } else { vec![rng.below(16) as u8, rng.below(16) as u8] };
+    let universe: Vec<[u8; 16]> = (0..rng.urange(3, 10)).map(|i| ekey_in_bucket(rng, buckets[i % buckets.len()])).collect();
+    let mut hist = Vec::new();
+    let step = |m: &mut IndexManager, rng: &mut Rng, hist: &mut Vec<Value>, may_flush: bool, prefer: &[u8]| {
+        // two picks in three fall into one of the preferred buckets (if the universe has a key there)
+        let preferred: Vec<[u8; 16]> = universe.iter().filter(|k| prefer.contains(&IndexManager::bucket_for_key(&EncodingKey::from_bytes(**k)))).copied().collect();
+        let k = if !preferred.is_empty() && rng.chance(2, 3) { *rng.pick(&preferred) } else { *rng.pick(&universe) };
+        let ek = EncodingKey::from_bytes(k);
+        match rng.below(if may_flush { 9 } else { 8 }) {
+            0..=3 => {
+                let (a, o, s) = (rng.below(1024) as u16, rng.below(1 << 30) as u32, rng.range(1, 100_000) as u32);
+                let _ = m.add_entry(&ek, a, o, s);
+                hist.push(json!(["add", hex::encode(&k[..9]), a, o, s]));
+            }
+            4 | 5 => hist.push(json!(["remove", hex::encode(&k[..9]), m.remove_entry(&ek)])),
+            6 => {
+                let (a, o, s) = (rng.below(1024) as u16, rng.below(1 << 30) as u32, rng.range(1, 100_000) as u32);
+                hist.push(json!(["update", hex::encode(&k[..9]), a, o, s, m.update_entry(&ek, a, o, s)]));
+            }
+            7 => hist.push(json!(["status", hex::encode(&k[..9]), m.update_entry_status(&ek, UpdateStatus::DataNonResident)])),
+            _ => {
+                let b = IndexManager::bucket_for_key(&ek);
+                let _ = m.flush_updates_for_bucket(b);
+                hist.push(json!(["flush_bucket", b]));
+            }
+        }
+    };
+    let pick_routine = |rng: &mut Rng, bucket: u8, save_all_in_8: u64| match rng.below(8) {
+        x if x < save_all_in_8 => IdxRoutine::SaveAll,
+        x if x < save_all_in_8 + (8 - save_all_in_8) * 2 / 3 => IdxRoutine::FlushBucket(bucket),
+        _ => IdxRoutine::FlushAll,
+    };
+    let mut m = IndexManager::new(&store);
+    for _ in 0..rng.urange(1, 6) {
+        step(&mut m, rng, &mut hist, true, &[]);
+    }
+    if rng.chance(2, 3) {
+        m.save_all().map_err(|e| format!("first save_all failed: {e}"))?;
+        hist.push(json!(["save_all (completed)"]));
+    } else {
+        hist.push(json!(["(no completed save before the interrupted one)"]));
+    }
+    for _ in 0..rng.urange(1, 6) {
+        step(&mut m, rng, &mut hist, true, &[]);
+    }
+    // the save that never completes
+    let old0 = observe_copy(&store, |d| recover_index(d, &universe))?;
+    let b1 = *rng.pick(&buckets);
+    let r1 = pick_routine(rng, b1, 5);
+    arm(&store);
+    let res = r1.run(&mut m);
+    let mon1 = disarm().ok_or("monitor lost")?;
+    res.map_err(|e| format!("the save that is to be interrupted failed: {e}"))?;
+    let new0 = r1.new_state(&m, &universe, &old0);
+    hist.push(json!([format!("{} (interrupted)", r1.label())]));
+    let temps = crash_into(rng, &store, &mon1, &mut hist)?;
+    drop(m);
+    // restart
+    let mut m = IndexManager::new(&store);
+    rt().block_on(m.load_all()).map_err(|e| format!("reopening after the interrupted save failed (judged by the kinds that monitor that save, not here): {e}"))?;
+    let start = render_index(&m, &universe);
+    old_or_new(&start, &old0, &new0)?;
+    hist.push(json!(["(restart: fresh instance, load_all)", {"temporary_files_left": temps}]));
+    // the session goes on, mostly in the bucket(s) whose temporary file was left behind, and the next save is
+    // mostly one that writes such a bucket
+    // (the bucket of a leftover: index file names start with the bucket number; taken from the file the temporary file
+    // was to become, from its own name if the interrupted save was the first one of the bucket)
+    let leftover_buckets: Vec<u8> = temps.iter().filter_map(|(t, target)| u8::from_str_radix(target.as_ref().unwrap_or(t).file_name()?.to_str()?.get(0..2)?, 16).ok()).collect();
+    for _ in 0..rng.urange(0, 6) {
+        step(&mut m, rng, &mut hist, false, &leftover_buckets);
+    }
+    let bucket = if !leftover_buckets.is_empty() && rng.chance(5, 6) { *rng.pick(&leftover_buckets) } else { *rng.pick(&buckets) };
+    let r2 = pick_routine(rng, bucket, 2);
+    arm(&store);
+    let res = r2.run(&mut m);
+    let mon2 = disarm().ok_or("monitor lost")?;
+    res.map_err(|e| format!("monitored save failed: {e}"))?;
+    let new = r2.new_state(&m, &universe, &start);
+    hist.push(json!([format!("{} (monitored)", r2.label())]));
+    hist.push(json!({"universe": universe.iter().map(hex::encode).collect::<Vec<_>>()}));
+    let mut calls = mon1.calls;
+    for (k, v) in mon2.calls {
+        *calls.entry(k).or_insert(0) += v;
+    }
+    Ok(Recorded { kind: Kind::IndexAfterInterruptedSave, history: Value::Array(hist), old: start, new, points: mon2.points, calls, sub: PathBuf::from("idx") })
+}
+
+/// The same history shape for the residency database: `save` is interrupted at one of its crash states, a fresh
+/// instance loads the directory (leftover temporary file included), works — one history in three deletes a large part
+/// of the keys, so that the next image is shorter than the leftover — and its next `save` is monitored.
+fn scenario_residency_after_interrupted_save(rng: &mut Rng, dir: &Path) -> Result<Recorded, String> {
+    let store = dir.join("res");
+    std::fs::create_dir_all(&store).map_err(|e| e.to_string())?;
+    let path = store.join("residency.db");
+    let big = rng.chance(1, 4);
+    let universe: Vec<[u8; 16]> = (0..if big { rng.urange(100, 600) } else { rng.urange(3, 40) }).map(|_| rng.array::<16>()).collect();
+    let mut db = ResidencyDb::new(path.clone());
+    let mut hist = Vec::new();
+    if big {
+        for k in &universe {
+            if rng.chance(4, 5) {
+                db.mark_resident(k);
+            }
+        }
+        hist.push(json!(["(population)", universe.len()]));
+    }
+    let step = |db: &mut ResidencyDb, rng: &mut Rng, hist: &mut Vec<Value>| {
+        let k = *rng.pick(&universe);
+        match rng.below(5) {
+            0 | 1 => {
+                db.mark_resident(&k);
+                hist.push(json!(["mark_resident", hex::encode(&k[..6])]));
+            }
+            2 => {
+                db.mark_non_resident(&k);
+                hist.push(json!(["mark_non_resident", hex::encode(&k[..6])]));
+            }
+            3 => {
+                db.mark_span_non_resident(&k, rng.below(4096) as i32, rng.range(1, 4096) as i32);
+                hist.push(json!(["mark_span_non_resident", hex::encode(&k[..6])]));
+            }
+            _ => {
+                db.delete_keys(&[k]);
+                hist.push(json!(["delete_keys", hex::encode(&k[..6])]));
+            }
+        }
+    };
+    for _ in 0..rng.urange(1, 30) {
+        step(&mut db, rng, &mut hist);
+    }
+    if rng.chance(2, 3) {
+        db.save().map_err(|e| format!("first save failed: {e}"))?;
+        hist.push(json!(["save (completed)"]));
+    } else {
+        hist.push(json!(["(no completed save before the interrupted one)"]));
+    }
+    for _ in 0..rng.urange(1, 30) {
+        step(&mut db, rng, &mut hist);
+    }
+    // the save that never completes
+    let old0 = observe_copy(&store, |d| recover_residency(d, &universe))?;
+    let new0 = render_residency(&db, &universe);
+    arm(&store);
+    let res = db.save();
+    let mon1 = disarm().ok_or("monitor lost")?;
+    res.map_err(|e| format!("the save that is to be interrupted failed: {e}"))?;
+    hist.push(json!(["save (interrupted)"]));
+    let temps = crash_into(rng, &store, &mon1, &mut hist)?;
+    drop(db);
+    // restart
+    let mut db = ResidencyDb::load(&path).map_err(|e| format!("reopening after the interrupted save failed (judged by the kinds that monitor that save, not here): {e}"))?;
+    let start = render_residency(&db, &universe);
+    old_or_new(&start, &old0, &new0)?;
+    hist.push(json!(["(restart: fresh instance, load)", {"temporary_files_left": temps}]));
+    if rng.chance(1, 3) {
+        let victims: Vec<[u8; 16]> = universe.iter().filter(|_| rng.chance(3, 4)).copied().collect();
+        db.delete_keys(&victims);
+        hist.push(json!(["delete_keys (bulk)", victims.len()]));
+    }
+    for _ in 0..rng.urange(1, 30) {
+        step(&mut db, rng, &mut hist);
+    }
+    let new = render_residency(&db, &universe);
+    arm(&store);
+    let res = db.save();
+    let mon2 = disarm().ok_or("monitor lost")?;
+    res.map_err(|e| format!("monitored save failed: {e}"))?;
+    hist.push(json!(["save (monitored)"]));
+    hist.push(json!({"universe": universe.iter().map(hex::encode).collect::<Vec<_>>()}));
+    let mut calls = mon1.calls;
+    for (k, v) in mon2.calls {
+        *calls.entry(k).or_insert(0) += v;
+    }
+    Ok(Recorded { kind: Kind::ResidencyAfterInterruptedSave, history: Value::Array(hist), old: start, new, points: mon2.points, calls, sub: PathBuf::from("res") })
+}
+
 fn copy_dir(from: &Path, to: &Path) -> std::io::Result<()> {
     std::fs::create_dir_all(to)?;
     for e in std::fs::read_dir(from)? {
@@ -1229,7 +1539,8 @@ fn recover(rec: &Recorded, store: &Path) -> Result<Obs, String> {
         Kind::DiskCachePut => recover_diskcache(store, false),
         Kind::DiskCachePutSubdirs => recover_diskcache(store, true),
         Kind::JournalRecord | Kind::JournalSave => recover_journal(store),
-        Kind::IndexFlushAll | Kind::IndexMutatorOnFullSection => recover_index(store, &parse_universe16(&rec.history)),
+        Kind::IndexFlushAll | Kind::IndexMutatorOnFullSection | Kind::IndexAfterInterruptedSave => recover_index(store, &parse_universe16(&rec.history)),
+        Kind::ResidencyAfterInterruptedSave => recover_residency(store, &parse_universe16(&rec.history)),
         Kind::ContainerWrite | Kind::ContainerRemove => recover_container(store, &parse_universe16(&rec.history)),
         Kind::ResidencyContainerFlush => recover_res_container(store, &parse_universe16(&rec.history)),
         Kind::LruAfterReload | Kind::LruRunCycle => {
@@ -1376,6 +1687,8 @@ fn run_scenario(kind: Kind, rng: &mut Rng, dir: &Path) -> Result<Recorded, Strin
         Kind::LruRunCycle => scenario_lru_run_cycle(rng, dir),
         Kind::DiskCacheRemove | Kind::DiskCacheClear | Kind::DiskCachePutReopened => scenario_diskcache_ops(rng, dir, kind),
         Kind::JournalSave => scenario_journal_save(rng, dir),
+        Kind::IndexAfterInterruptedSave => scenario_index_after_interrupted_save(rng, dir),
+        Kind::ResidencyAfterInterruptedSave => scenario_residency_after_interrupted_save(rng, dir),
     }
 }
 
@@ -1485,7 +1798,7 @@ fn main() {
         return;
     }
     let ctx = Ctx::init("C06", "fault_enumeration");
-    ctx.set_rule("short operation histories lead to a completed save (old state), further operations, and a second save that runs under I/O interposition; every intercepted open(create/trunc)/write/pwrite/writev/ftruncate/fsync/fdatasync/rename/unlink on the store directory is a crash point; per point the as-is directory plus, for every file dirty since its last fsync, prefixes (0, 1, 512-byte boundaries, len-1), zeros, and last-synced (stale) content; each derived directory is opened by a fresh instance; non-trivial = crash point strictly inside the routine; distinct by hash of the derived directory content");
+    ctx.set_rule("short operation histories lead to a completed save (old state), further operations, and a second save that runs under I/O interposition; every intercepted open(create/trunc)/write/pwrite/writev/ftruncate/fsync/fdatasync/rename/unlink on the store directory is a crash point; per point the as-is directory plus, for every file dirty since its last fsync, prefixes (0, 1, 512-byte boundaries, len-1), zeros, and last-synced (stale) content; each derived directory is opened by a fresh instance; non-trivial = crash point strictly inside the routine; distinct by hash of the derived directory content; in the kinds '*.save-after-interrupted-save' the save before the monitored one runs under the monitor too and the process dies at one of its derived crash states (mostly one that leaves the temporary file behind), a fresh instance loads that directory, mutates, and its next save is the monitored one (old state = what the fresh instance loaded, which must be the old or the new state of the interrupted save)");
     ctx.assume("renames and unlinks are atomic, ordered and durable (directory-entry durability is not modelled); un-synced file content may be lost as a prefix, zeroed, or revert to the last synced content");
     ctx.assume("only process death / loss of un-synced data is simulated, not torn sectors inside fsynced files");
 
@@ -1499,7 +1812,7 @@ fn main() {
         }
     }
 
-    let histories: u64 = ctx.pick(2040, 40_800);
+    let histories: u64 = ctx.pick(2400, 48_000);
     let thorough = !ctx.quick();
     let kinds = ALL_KINDS;
     // round-robin schedule; the three kinds whose histories produce many more (and, with every 512-byte prefix in the
@@ -1508,6 +1821,16 @@ fn main() {
     let mut schedule: Vec<Kind> = Vec::new();
     for round in 0..3 {
         schedule.extend(kinds.iter().copied().filter(|k| round == 0 || !heavy.contains(k)));
+        // the history shape with the most stages (save, crash, restart, save) gets a second turn per round
+        schedule.push(Kind::IndexAfterInterruptedSave);
+    }
+    // development aid: VH_C06_ONLY=<routine name> runs the histories of one kind only
+    if let Ok(only) = std::env::var("VH_C06_ONLY") {
+        schedule.retain(|k| k.name() == only);
+        if schedule.is_empty() {
+            ctx.inconclusive("VH_C06_ONLY names no routine");
+            ctx.finish();
+        }
     }
     let deadline = std::time::Instant::now() + std::time::Duration::from_secs(ctx.pick(50, 540));
     let mut all_calls: BTreeMap<String, u64> = BTreeMap::new();
@@ -1544,6 +1867,31 @@ fn main() {
         }
         ctx.obs(&format!("histories_with_io.{}", kind.name()), 1);
         ctx.obs("crash_points", rec.points.len() as u64);
+        // monitored routines that start in a directory holding a temporary file of an earlier, interrupted save; and
+        // those that write the file the leftover was to become, which ends up shorter than / as long as / longer than it
+        let left: Vec<(PathBuf, Option<PathBuf>)> = rec
+            .history
+            .as_array()
+            .and_then(|a| a.iter().find_map(|v| v.get(1).and_then(|o| o.get("temporary_files_left"))))
+            .and_then(|v| serde_json::from_value(v.clone()).ok())
+            .unwrap_or_default();
+        if let (Some(first), Some(last)) = (rec.points.first(), rec.points.last()) {
+            if left.iter().any(|(t, _)| first.files.contains_key(t)) {
+                ctx.obs(&format!("leftover.routine_starts_with_a_temporary_file_of_an_interrupted_save.{}", kind.name()), 1);
+            }
+            for (t, target) in &left {
+                let (Some(tmp), Some(target)) = (first.files.get(t), target) else { continue };
+                let Some(f) = last.files.get(target) else { continue };
+                if first.files.get(target).is_none_or(|g| !Arc::ptr_eq(&g.content, &f.content)) {
+                    let rel = match f.content.len().cmp(&tmp.content.len()) {
+                        std::cmp::Ordering::Less => "shorter_than",
+                        std::cmp::Ordering::Equal => "as_long_as",
+                        std::cmp::Ordering::Greater => "longer_than",
+                    };
+                    ctx.obs(&format!("leftover.file_written_is_{rel}_the_leftover_temporary_file.{}", kind.name()), 1);
+                }
+            }
+        }
         let states = derive_states(&rec.points, thorough);
         ctx.obs("derived_states", states.len() as u64);
         if ctx.want_sample() {
@@ -1585,6 +1933,16 @@ fn main() {
         }
         if ctx.get_obs(&format!("histories.{}", k.name())) > 0 && ctx.get_obs(&format!("histories_with_io.{}", k.name())) == 0 {
             ctx.inconclusive(&format!("routine {} never produced intercepted I/O (interposer missed its calls?)", k.name()));
+        }
+    }
+    // the situations the after-interrupted-save kinds exist for must have been reached
+    for k in [Kind::IndexAfterInterruptedSave, Kind::ResidencyAfterInterruptedSave] {
+        if ctx.get_obs(&format!("histories.{}", k.name())) >= 20 {
+            for what in ["routine_starts_with_a_temporary_file_of_an_interrupted_save", "file_written_is_shorter_than_the_leftover_temporary_file"] {
+                if ctx.get_obs(&format!("leftover.{what}.{}", k.name())) == 0 {
+                    ctx.inconclusive(&format!("situation never reached: leftover.{what}.{}", k.name()));
+                }
+            }
         }
     }
     if thorough || std::env::var_os("VH_C06_STRACE").is_some() {
